@@ -299,4 +299,268 @@ theorem readSpecB_entry (S : Tag → Prop) (d : Tag) (tmplr : List Item) (rest :
       obtain ⟨g, hg, h2⟩ := ih (fun x hx => hes x (by simp [hx])) i e (by simpa using hi)
       exact ⟨g, by simpa [readSpecB] using hg, h2⟩
 
+
+/-! ## `Write` of entries whose members may be nested groups (compositional) -/
+
+/-- the TagValues a setter call contributes: one field, or the count field followed by what `Write` emits for the nested entries -/
+def blockData : GFld → Option (Tag × List TagValue)
+  | .fld t v => some (t, [TagValue.init t v])
+  | .grp t tm es =>
+    match writeEntries tm es with
+    | .ok W => some (t, countTV t es.length :: W)
+    | _ => none
+
+/-- the latest TagValues a sequence of setter calls gives to `t` -/
+def latestB : List (Tag × List TagValue) → Tag → Option (List TagValue)
+  | [], _ => none
+  | (k, v) :: r, t => match latestB r t with
+                      | some x => some x
+                      | none => if k = t then some v else none
+
+def putAllFB : FieldMap → List (Tag × List TagValue) → FieldMap
+  | fm, [] => fm
+  | fm, (t, tvs) :: r => putAllFB (fm.put t (.owned tvs)) r
+
+theorem buildEntry_blocks : ∀ (flds : List GFld) (bs : List (Tag × List TagValue)) (fm : FieldMap),
+    flds.map blockData = bs.map some → fm.ownedNE → (∀ p ∈ bs, p.2 ≠ []) → buildEntry flds fm = .ok (putAllFB fm bs) := by
+  intro flds
+  induction flds with
+  | nil =>
+    intro bs fm h _ _
+    cases bs with
+    | nil => simp [buildEntry, putAllFB]
+    | cons b r => simp at h
+  | cons f r ih =>
+    intro bs fm h ho hne
+    cases bs with
+    | nil => simp at h
+    | cons b bs' =>
+      simp only [List.map_cons, List.cons.injEq] at h
+      obtain ⟨hb, hr⟩ := h
+      obtain ⟨t, tvs⟩ := b
+      have hnb : tvs ≠ [] := hne (t, tvs) (by simp)
+      cases f with
+      | fld t' v =>
+        simp only [blockData, Option.some.injEq, Prod.mk.injEq] at hb
+        obtain ⟨h1, h2⟩ := hb
+        subst h1; subst h2
+        obtain ⟨sr, hs, hfm⟩ := setBytes_ownedNE ho t' v
+        simp only [buildEntry, hs, hfm, putAllFB]
+        exact ih bs' _ hr (ownedNE_put ho _ _ _) (fun p hp => hne p (by simp [hp]))
+      | grp t' tm es =>
+        simp only [blockData] at hb
+        cases hw : writeEntries tm es with
+        | ok W =>
+          rw [hw] at hb
+          simp only [Option.some.injEq, Prod.mk.injEq] at hb
+          obtain ⟨h1, h2⟩ := hb
+          subst h1; subst h2
+          simp only [buildEntry, hw, putAllFB]
+          have hform : fm.setGroup t' (countTV t' es.length :: W) = fm.put t' (.owned (countTV t' es.length :: W)) := rfl
+          rw [hform]
+          exact ih bs' _ hr (ownedNE_put ho _ _ _) (fun p hp => hne p (by simp [hp]))
+        | err e => rw [hw] at hb; cases hb
+        | fault x => rw [hw] at hb; cases hb
+
+
+theorem putAllFB_inv (e : List (Tag × List TagValue)) : ∀ (fm : FieldMap), FMInv fm → FMInv (putAllFB fm e) := by
+  induction e with
+  | nil => intro fm h; exact h
+  | cons p r ih => intro fm h; obtain ⟨t, v⟩ := p; exact ih _ (h.put' _ _)
+
+theorem putAllFB_ord (e : List (Tag × List TagValue)) : ∀ (fm : FieldMap), (putAllFB fm e).ord = fm.ord := by
+  induction e with
+  | nil => intro fm; rfl
+  | cons p r ih => intro fm; obtain ⟨t, v⟩ := p; simp only [putAllFB]; rw [ih]; rfl
+
+theorem putAllFB_find (e : List (Tag × List TagValue)) (t : Tag) : ∀ (fm : FieldMap),
+    alFind (putAllFB fm e).lookup t =
+      (match latestB e t with
+       | some v => some (.owned v)
+       | none => alFind fm.lookup t) := by
+  induction e with
+  | nil => intro fm; rfl
+  | cons p r ih =>
+    intro fm
+    obtain ⟨k, v⟩ := p
+    simp only [putAllFB, latestB]
+    rw [ih]
+    cases hl : latestB r t with
+    | some x => rfl
+    | none =>
+      by_cases hk : k = t
+      · subst hk; simp [put_find_self]
+      · simp [hk, put_find_other _ _ _ _ (Ne.symm hk)]
+
+theorem latestB_mem (e : List (Tag × List TagValue)) (t : Tag) (v : List TagValue) (h : latestB e t = some v) : (t, v) ∈ e := by
+  induction e with
+  | nil => simp [latestB] at h
+  | cons p r ih =>
+    obtain ⟨k, x⟩ := p
+    simp only [latestB] at h
+    cases hl : latestB r t with
+    | some y => rw [hl] at h; injection h with h; subst h; exact List.mem_cons_of_mem _ (ih hl)
+    | none =>
+      rw [hl] at h
+      by_cases hk : k = t
+      · simp only [hk, if_true] at h; injection h with h; subst h; subst hk; simp
+      · simp [hk] at h
+
+/-- the member blocks of an entry as `Write` emits them: template order, each tag once, latest setter call -/
+def canonB (ts : List Tag) (e : List (Tag × List TagValue)) : List Block :=
+  ts.filterMap (fun t => (latestB e t).map (fun tvs => (⟨t, tvs⟩ : Block)))
+
+theorem collectTags_putAllFB (e : List (Tag × List TagValue)) (o : OrdKind) (l : List Tag) :
+    collectTags (putAllFB (FieldMap.empty o) e).lookup l = serBlocks (l.filterMap (fun t => (latestB e t).map (fun tvs => (⟨t, tvs⟩ : Block)))) := by
+  induction l with
+  | nil => rfl
+  | cons t r ih =>
+    simp only [collectTags, putAllFB_find, List.filterMap_cons]
+    cases hl : latestB e t with
+    | none =>
+      have : alFind (FieldMap.empty o).lookup t = none := rfl
+      simp only [this, List.nil_append, Option.map_none]
+      exact ih
+    | some v => simp [ih, Field.items, serBlocks]
+
+theorem entryTVs_blocks (ts : List Tag) (hts : ts.Nodup) (e : List (Tag × List TagValue)) (hsub : ∀ p ∈ e, p.1 ∈ ts) :
+    entryTVs (putAllFB (FieldMap.empty (.group ts)) e) = serBlocks (canonB ts e) := by
+  have hi := putAllFB_inv e _ (FMInv.empty (.group ts))
+  have hmem : ∀ t, t ∈ (putAllFB (FieldMap.empty (.group ts)) e).tags ↔ (latestB e t).isSome = true := by
+    intro t
+    rw [hi.same, mem_alKeys_iff, putAllFB_find]
+    cases latestB e t <;> simp [FieldMap.empty, alFind]
+  have hsubT : ∀ t ∈ (putAllFB (FieldMap.empty (.group ts)) e).tags, t ∈ ts := by
+    intro t ht
+    have := (hmem t).1 ht
+    cases hl : latestB e t with
+    | none => rw [hl] at this; cases this
+    | some v => exact hsub _ (latestB_mem e t v hl)
+  unfold entryTVs
+  rw [putAllFB_ord, show (FieldMap.empty (OrdKind.group ts)).ord = .group ts from rfl,
+    sortTags_group ts _ hts hi.tagsNodup hsubT, collectTags_putAllFB]
+  unfold canonB
+  have hf : ts.filter (fun t => (putAllFB (FieldMap.empty (.group ts)) e).tags.contains t) =
+      ts.filter (fun t => ((latestB e t).map (fun tvs => (⟨t, tvs⟩ : Block))).isSome) := by
+    apply List.filter_congr
+    intro t _
+    have := hmem t
+    cases hc : (putAllFB (FieldMap.empty (.group ts)) e).tags.contains t <;> cases hs : (latestB e t).isSome <;> simp_all
+  rw [hf, filterMap_filter_isSome]
+
+/-- `Write` of entries whose members may be nested groups: per entry, the member blocks in template order — compositional:
+    the nested groups' own `Write` results enter as given (`blockData`) -/
+theorem writeEntries_blocks (tmpl : List Item) (hts : (tmplTags tmpl).Nodup) :
+    ∀ (es : List (List GFld)) (bss : List (List (Tag × List TagValue))),
+    es.map (fun e => e.map blockData) = bss.map (fun bs => bs.map some) →
+    (∀ bs ∈ bss, ∀ p ∈ bs, p.1 ∈ tmplTags tmpl ∧ p.2 ≠ []) →
+    writeEntries tmpl es = .ok (bss.flatMap (fun bs => serBlocks (canonB (tmplTags tmpl) bs))) := by
+  intro es
+  induction es with
+  | nil =>
+    intro bss h _
+    cases bss with
+    | nil => simp [writeEntries]
+    | cons b r => simp at h
+  | cons e r ih =>
+    intro bss h hp
+    cases bss with
+    | nil => simp at h
+    | cons bs bss' =>
+      simp only [List.map_cons, List.cons.injEq] at h
+      obtain ⟨he, hr⟩ := h
+      have hne : (FieldMap.empty (.group (tmplTags tmpl))).ownedNE := by
+        intro k f hf; simp [FieldMap.empty, alFind] at hf
+      simp only [writeEntries]
+      rw [buildEntry_blocks e bs _ he hne (fun p hpm => (hp bs (by simp) p hpm).2),
+        ih bss' hr (fun x hx => hp x (by simp [hx]))]
+      simp only [entryTVs_blocks (tmplTags tmpl) hts bs (fun p hpm => (hp bs (by simp) p hpm).1), List.flatMap_cons]
+
+
+theorem canonB_mem (ts : List Tag) (e : List (Tag × List TagValue)) (b : Block) :
+    b ∈ canonB ts e ↔ b.tag ∈ ts ∧ latestB e b.tag = some b.tvs := by
+  unfold canonB
+  rw [List.mem_filterMap]
+  constructor
+  · rintro ⟨a, ha, hm⟩
+    cases hl : latestB e a with
+    | none => rw [hl] at hm; cases hm
+    | some x =>
+      rw [hl] at hm; simp only [Option.map_some, Option.some.injEq] at hm
+      subst hm; exact ⟨ha, hl⟩
+  · rintro ⟨ha, hl⟩
+    exact ⟨b.tag, ha, by rw [hl]; rfl⟩
+
+theorem canonB_tags_sublist (ts : List Tag) (e : List (Tag × List TagValue)) : ((canonB ts e).map (·.tag)).Sublist ts := by
+  unfold canonB
+  induction ts with
+  | nil => simp
+  | cons t r ih =>
+    rw [List.filterMap_cons]
+    cases hl : latestB e t with
+    | none => simp only [Option.map_none]; exact ih.cons _
+    | some v => simp only [Option.map_some, List.map_cons]; exact ih.cons_cons _
+
+theorem canonB_entryOK (S : Tag → Prop) (d : Tag) (tmplr : List Item) (hn : (tmplTags (.elem d :: tmplr)).Nodup)
+    (bs : List (Tag × List TagValue)) (tv : TagValue) (hd : latestB bs d = some [tv]) (htv : tv.tag = d)
+    (hb : ∀ p ∈ bs, BlockOK S (.elem d :: tmplr) ⟨p.1, p.2⟩) :
+    EntryOKB S d tmplr (canonB (tmplTags (.elem d :: tmplr)) bs) := by
+  have htags : tmplTags (.elem d :: tmplr) = d :: tmplTags tmplr := by simp [tmplTags, Item.tag]
+  refine ⟨tv, canonB (tmplTags tmplr) bs, ?_, htv, ?_⟩
+  · rw [htags]; unfold canonB; rw [List.filterMap_cons, hd]; rfl
+  · intro b hbm
+    obtain ⟨hm, hl⟩ := (canonB_mem _ _ b).1 hbm
+    rw [htags, List.nodup_cons] at hn
+    refine ⟨fun e => hn.1 (e ▸ hm), ?_⟩
+    have := hb (b.tag, b.tvs) (latestB_mem bs b.tag b.tvs hl)
+    exact this
+
+/-- WRITE THEN READ, NESTED GROUPS (compositional): entries built by arbitrary setter calls — `Set…` of element fields and
+    `SetGroup` of nested groups — on a template of distinct tags; the nested groups' own wire forms read back (`BlockOK`).
+    `Write` followed by `Read` returns one entry per entry written; every tag set in an entry maps to a range that starts
+    with the TagValues of its LATEST setter call (for a nested group: its count field and entries). -/
+theorem roundtrip_nested (S : Tag → Prop) (G d : Tag) (tmplr : List Item) (hts : (tmplTags (.elem d :: tmplr)).Nodup)
+    (rest : List TagValue)
+    (hS : ∀ t, t ∈ tmplTags (.elem d :: tmplr) → S t) (hSr : ∀ f r, rest = f :: r → S f.tag)
+    (hrest : ∀ f r, rest = f :: r → findItem (.elem d :: tmplr) f.tag = none)
+    (es : List (List GFld)) (bss : List (List (Tag × List TagValue)))
+    (hdata : es.map (fun e => e.map blockData) = bss.map (fun bs => bs.map some))
+    (hb : ∀ bs ∈ bss, (∀ p ∈ bs, p.1 ∈ tmplTags (.elem d :: tmplr) ∧ BlockOK S (.elem d :: tmplr) ⟨p.1, p.2⟩) ∧
+      ∃ tv, latestB bs d = some [tv] ∧ tv.tag = d)
+    (hn : es.length < 9223372036854775808) :
+    ∃ tvs gs, writeGroup G (.elem d :: tmplr) es = .ok tvs ∧ getGroup (.elem d :: tmplr) (tvs ++ rest) = .ok gs ∧
+      gs.length = es.length ∧
+      ∀ (i : Nat) (bs : List (Tag × List TagValue)), bss[i]? = some bs → ∃ g : GEntry, gs[i]? = some g ∧
+        ∀ t tvs', latestB bs t = some tvs' → ∃ tail, alFind g.lookup t = some (tvs' ++ tail) := by
+  have hlen : bss.length = es.length := by have := congrArg List.length hdata; simpa using this.symm
+  have hw := writeEntries_blocks (.elem d :: tmplr) hts es bss hdata (fun bs hbs p hp =>
+    ⟨((hb bs hbs).1 p hp).1, by obtain ⟨t0, W, h1, _, _⟩ := ((hb bs hbs).1 p hp).2.head; simp only at h1; rw [h1]; simp⟩)
+  have hes' : ∀ e ∈ bss.map (canonB (tmplTags (.elem d :: tmplr))), EntryOKB S d tmplr e := by
+    intro e he
+    obtain ⟨bs, hbs, rfl⟩ := List.mem_map.1 he
+    obtain ⟨tv, hd, htv⟩ := (hb bs hbs).2
+    exact canonB_entryOK S d tmplr hts bs tv hd htv (fun p hp => ((hb bs hbs).1 p hp).2)
+  have hfm : (bss.map (canonB (tmplTags (.elem d :: tmplr)))).flatMap serBlocks =
+      bss.flatMap (fun bs => serBlocks (canonB (tmplTags (.elem d :: tmplr)) bs)) := by rw [List.flatMap_map]
+  have hl2 : (bss.map (canonB (tmplTags (.elem d :: tmplr)))).length = es.length := by simp [hlen]
+  have hfuel : readFuel (countTV G (bss.map (canonB (tmplTags (.elem d :: tmplr)))).length ::
+      ((bss.map (canonB (tmplTags (.elem d :: tmplr)))).flatMap serBlocks ++ rest)) ≥
+      2 * (1 + tvCount (bss.map (canonB (tmplTags (.elem d :: tmplr))))) + 1 := by
+    have := flatMap_serBlocks_length (bss.map (canonB (tmplTags (.elem d :: tmplr))))
+    simp [readFuel, this]; omega
+  have hread := readGroup_blocks S G d tmplr rest hS hSr hrest _ hes' (by rw [hl2]; exact hn) _ hfuel
+  refine ⟨countTV G es.length :: bss.flatMap (fun bs => serBlocks (canonB (tmplTags (.elem d :: tmplr)) bs)),
+    readSpecB rest (bss.map (canonB (tmplTags (.elem d :: tmplr)))), ?_, ?_, by rw [readSpecB_length, hl2], ?_⟩
+  · simp only [writeGroup, hw]
+  · rw [hl2, hfm] at hread
+    simp only [getGroup, List.cons_append]
+    rw [hread]
+  · intro i bs hi
+    obtain ⟨g, hg, _, hfind⟩ := readSpecB_entry S d tmplr rest _ hes' i (canonB (tmplTags (.elem d :: tmplr)) bs) (by simp [hi])
+    refine ⟨g, hg, ?_⟩
+    intro t tvs' hl
+    have hm : t ∈ tmplTags (.elem d :: tmplr) := ((hb bs (List.mem_of_getElem? hi)).1 _ (latestB_mem bs t tvs' hl)).1
+    exact hfind ((canonB_tags_sublist _ bs).nodup hts) ⟨t, tvs'⟩ ((canonB_mem _ bs ⟨t, tvs'⟩).2 ⟨hm, hl⟩)
+
+
 end Qfx
